@@ -22,7 +22,7 @@ from ..ref import dense, gls
 
 ID = 'C07'
 LEVEL = 'exploration'
-DECIDING = ['tap:least_squares', 'fits_judged', 'metamorphic_pairs_judged', 'corr_fit_judged', 'prior_string_gradients_judged', 'stored_state_monitored',
+DECIDING = ['tap:least_squares', 'fits_judged', 'metamorphic_pairs_judged', 'corr_fit_judged', 'corr_fit_repeated_calls_judged', 'corr_plateau_fits_judged', 'prior_string_gradients_judged', 'stored_state_monitored',
             'alias_cases_judged', 'spectator_parameters_judged', 'histories_judged', 'scale_pairs_judged', 'representations_judged', 'chained_fits_judged', 'boundary_cases_judged']
 RULE = ('cases: linear-basis models from {1, x, x^2, sin x, exp(-x), x2, x*x2} with 1-4 parameters, 1-3 data sets sharing parameters, '
         '1-2 abscissa dimensions, data on independent / shared / mixed / nested ensembles (AR noise, common modes, replicas, covariance inputs), '
@@ -142,7 +142,7 @@ def teardown(ctx):
 
 def plan(tier):
     m = 1 if tier == 'quick' else 8
-    return [('fit', 260 * m), ('corrfit', 60 * m), ('alias', 72 * m), ('history', 54 * m), ('scale', 60 * m), ('representation', 80 * m),
+    return [('fit', 260 * m), ('corrfit', 72 * m), ('alias', 72 * m), ('history', 54 * m), ('scale', 60 * m), ('representation', 80 * m),
             ('chain', 54 * m), ('boundary', 56 * m), ('expchisq', 60 * m), ('spectator', 54 * m)]
 
 
@@ -838,7 +838,8 @@ def run_corr_case(ctx, idx, rng):
             s = 0.02 * (abs(mean[t]) + 0.2) * np.sqrt(n)
             content.append(pe.Obs([mean[t] + s * (0.5 * common + ar_noise(rng, n, 0))], ['ens'], idl=[range(1, n + 1)]))
     corr = pe.Corr(content)
-    corr.gamma_method(S=float(rng.choice([0, 1, 2])))
+    Scorr = float(rng.choice([0, 1, 2]))
+    corr.gamma_method(S=Scorr)
     mode = ['range', 'prange', 'all'][idx % 3]
     for _ in range(50):
         a = int(rng.integers(0, T - 2))
@@ -863,15 +864,7 @@ def run_corr_case(ctx, idx, rng):
     if rng.random() < 0.3 and len(exp_ts) * 5 < n:
         kw['correlated_fit'] = True
         opts['weights'] = 'estimated'
-    if mode == 'range':
-        if rng.random() < 0.5:
-            corr.set_prange([0, T - 1] if (a, b) != (0, T - 1) else [1, T - 2])    # an explicit range wins over the stored one
-        res = corr.fit(f, [a, b], silent=True, **kw)
-    elif mode == 'prange':
-        corr.set_prange([a, b])
-        res = corr.fit(f, silent=True, **kw)
-    else:
-        res = corr.fit(f, silent=True, **kw)
+    # ---- the reference (independent of how often and through which object the fit is requested)
     ys = [corr.content[t][0] for t in exp_ts]
     x = np.array(exp_ts, dtype=float)
     sets = [{'key': '', 'terms': terms, 'x': x * scale, 'y': ys}]
@@ -883,13 +876,62 @@ def run_corr_case(ctx, idx, rng):
         ctx.count('discarded_ill_conditioned')
         raise Skip()
     ctx.cell('corrfit', mode, 'undefined%d' % min(len(undefined), 2), opts['weights'])
-    # the number of points decides inclusive / exclusive and skipped slices already through dof
-    info = judge(ctx, prob, opts, res, sol, 'Corr.fit', 'Corr.fit %s [%d,%d] undefined %s' % (mode, a, b, sorted(undefined)))
-    ctx.count('corr_fit_judged')
-    ctx.count('fits_judged')
+    # ---- the calls: the same range / correlator objects are used for several fits (second use of an argument or of stored state);
+    # every call is judged against the closed form on t = a..b, and range list, stored prange and correlator must be left as they were
+    fr = [a, b]                                   # the caller's list, handed over by reference in mode 'range'
+    stored = None
+    if mode == 'range' and rng.random() < 0.5:
+        stored = [0, T - 1] if (a, b) != (0, T - 1) else [1, T - 2]     # an explicit range wins over the stored one
+        corr.set_prange(stored)
+    elif mode == 'prange':
+        stored = fr
+        corr.set_prange(stored)
+    stored_before = None if stored is None else list(stored)
+    derived = None
+    if mode == 'prange':
+        derived = corr + 0.0                      # derived correlators share the stored range object
+        derived.gamma_method(S=Scorr)
+    calls = {'range': [('first', corr, (fr,)), ('same list again', corr, (fr,)), ('same list, third call', corr, (fr,))],
+             'prange': [('first', corr, ()), ('derived correlator sharing prange', derived, ()), ('original again', corr, ())],
+             'all': [('first', corr, ()), ('again', corr, ())]}[mode]
+    content_before = any_digest(corr)
+    first = None
+    for ncall, (label, cobj, args) in enumerate(calls):
+        res = cobj.fit(f, *args, silent=True, **kw)
+        mech = 'Corr.fit' if ncall == 0 else 'Corr.fit:repeated-call'
+        what = 'Corr.fit %s [%d,%d] undefined %s call %d (%s)' % (mode, a, b, sorted(undefined), ncall + 1, label)
+        info = judge(ctx, prob, opts, res, sol, mech, what)
+        ctx.count('corr_fit_judged')
+        ctx.count('fits_judged')
+        ctx.require(fr == [a, b], 'Corr.fit:fitrange-argument-changed', {'what': what, 'passed': [a, b], 'now': list(fr)})
+        ctx.require(stored is None or (list(stored) == stored_before and list(corr.prange) == stored_before), 'Corr.fit:stored-prange-changed',
+                    {'what': what, 'set': stored_before, 'now': None if corr.prange is None else list(corr.prange)})
+        ctx.require(any_digest(corr) == content_before, 'Corr.fit:correlator-changed', what)
+        if ncall == 0:
+            first = (res, info)
+        else:
+            ctx.count('corr_fit_repeated_calls_judged')
+    res, info = first
+    # ---- plateau(method='fit') is a constant fit through the same entry point: weighted mean of the defined slices of [a, b], on the
+    # second request as well, with the range given explicitly (same list twice) or taken from the stored prange
+    if not kw:
+        pl_sets = [{'key': '', 'terms': [(0, '1')], 'x': x * scale, 'y': ys}]
+        pl_prob = dict(k=1, dim=1, sets=pl_sets, ptrue=ptrue[:1], A=design_matrix(pl_sets, 1, 1), ys=ys, priors=None, prior_spec=[])
+        pl_sol = reference(pl_prob, dict(opts, weights='diag', k=1), dy, [], None)
+        pr = [a, b]
+        use_stored = mode == 'prange'
+        for ncall in range(2):
+            got = corr.plateau(method='fit') if use_stored else corr.plateau(pr, method='fit')
+            tol = val_tol('Levenberg-Marquardt', pl_sol) * pl_sol['perr'][0] + 1e-11 * abs(pl_sol['p'][0])
+            ctx.close(got.value, pl_sol['p'][0], 'Corr.plateau-fit:value', 'call %d %s' % (ncall + 1, 'prange' if use_stored else 'explicit range'), rtol=0.0, atol=tol)
+            refp = dense.propagate(pl_sol['snaps'], list(pl_sol['Sy'][0]), lambda v: 0.0)
+            compare_param(ctx, got, refp, 'Corr.plateau-fit', 1e-6 * dense.delta_scale(pl_sol['snaps'], list(pl_sol['Sy'][0])) + 1e-300, {}, 'call %d' % (ncall + 1))
+            ctx.require(pr == [a, b] and (stored is None or list(corr.prange) == stored_before), 'Corr.plateau-fit:range-changed',
+                        {'passed': [a, b], 'now': list(pr), 'prange': None if corr.prange is None else list(corr.prange)})
+        ctx.count('corr_plateau_fits_judged', 2)
     if info and info['nontriv'] and k >= 2:
         ctx.nontrivial.add(digest([obs_digest(o) for o in ys], a, b, mode, terms))
-    ctx.sample({'Corr.fit': mode, 'range': [a, b], 'undefined': sorted(undefined), 'points_expected': exp_ts, 'dof': int(res.dof),
+    ctx.sample({'Corr.fit': mode, 'range': [a, b], 'undefined': sorted(undefined), 'points_expected': exp_ts, 'dof': int(res.dof), 'calls': [c[0] for c in calls],
                 'closed_form_p': sol['p'], 'library_p': [o.value for o in res.fit_parameters]})
 
 
@@ -1488,7 +1530,10 @@ def run_boundary_case(ctx, idx, rng):
             kw['priors'] = {0: spec[0][2]}
         if idx % 2:
             corr.set_prange([0, T - 1])
-        res = corr.fit(f, [a, a], silent=True, **kw)
+        fr = [a, a]
+        for ncall in range(2):                      # the same single-slice range list twice: the second use must fit the same slice
+            res = corr.fit(f, fr, silent=True, **kw)
+            ctx.require(fr == [a, a] and int(res.dof) == len(spec), 'Corr.fit:fitrange-argument-changed', {'passed': [a, a], 'now': list(fr), 'dof': int(res.dof), 'call': ncall + 1})
         ys = [corr.content[a][0]]
         sets = [{'key': '', 'terms': [(0, '1')], 'x': np.array([float(a)]), 'y': ys}]
         prob = dict(k=1, dim=1, sets=sets, ptrue=np.array([1.0]), A=design_matrix(sets, 1, 1), ys=ys)
